@@ -514,6 +514,17 @@ def shapes(ctx: Ctx) -> None:
     for (z, f), (may, must) in trd.items():
         ok = ok and may == (not z and f)
     ctx.ob("C14.R3", ff, "zero / inf / NaN returned unchanged before rounding", ok, f"unchanged: {fmt_table(['zero', 'finite'], ts)}; rounded: {fmt_table(['zero', 'finite'], trd)}")
+    # a memoised conversion answers by *equal* key: 0.0 and -0.0 (and 1 and 1.0 and True) are one cache slot, so what a
+    # value converts to would depend on which equal value was converted first
+    ctx.ob("C14.R3", ff, "the float conversion is a plain function (not memoised)", not ff.node.decorator_list, f"decorators {[norm(d)[:40] for d in ff.node.decorator_list]}: `unchanged` zero / equal values of different type would share one cached answer")
+    # presence decides, not truthiness: a conversion that picks between dictionary entries with `or` treats the valid
+    # values 0 / False / "" / enum member 0 as missing
+    for mf in ctx.repo.funcs_in("model"):
+        if mf.name not in ("convert_list", "from_dict", "from_pb", "convert", "__post_init__"):
+            continue
+        ors = [n for n in own_nodes(mf.node) if isinstance(n, ast.BoolOp) and isinstance(n.op, ast.Or) and any((isinstance(v, ast.Call) and isinstance(v.func, ast.Attribute) and v.func.attr == "get") or isinstance(v, ast.Subscript) for v in n.values[:-1])]
+        if ors:
+            ctx.ob("C14.R3", mf, "dictionary entries are chosen by key presence, not by truthiness of the value", False, f"{[norm(o)[:60] for o in ors[:2]]}: a present entry whose value is falsy (0, False, '', the zero member of an enum) is replaced by the fallback", node=ors[0])
     consts = [n.value for n in own_nodes(ff.node) if isinstance(n, ast.Constant) and isinstance(n.value, int) and not isinstance(n.value, bool)]
     ctx.ob("C14.R3", ff, "7 significant digits", 7 in consts, f"integer constants in the function: {sorted(set(consts))}")
 
